@@ -711,6 +711,27 @@ def prove_evaluate(src_root, ex: Explorer):
 # ---------------------------------------------------------------------------
 # configuration changes reach the management cycle
 
+def prove_requeue_clears_reason(src_root, ex: Explorer):
+    """An upload that is queued again (by its owner, or by the re-evaluation) is a fresh upload for the re-evaluation: its abort reason is
+    cleared by queue() - a stale 'Requested' would make a later block look like a user's abort, which is never queued again"""
+    from contracts import C03
+
+    def path(ctx: Ctx):
+        it = mk(src_root, ctx)
+        effects: list = []
+        C03.install_env(it, ctx, effects)
+        direction = ['UPLOAD', 'DOWNLOAD'][ctx.choose(2, 'direction')]
+        t, lock = C03.mk_transfer(it, ctx, direction, [])
+        st = it.call(cls(it, 'transfer.state', 'AbortedState'), [t], {})
+        t.attrs['state'] = st
+        t.attrs['abort_reason'] = 'Requested'
+        lock.locked = True
+        r = run(it, it.getattr(st, 'queue'))
+        ctx.prove(f'C08.requeue.clears-abort-reason[{direction.lower()}]', it.truth(r) is True and t.attrs['abort_reason'] is None,
+                  f'ABORTED -> QUEUED keeps abort_reason={t.attrs["abort_reason"]!r}')
+    ex.run(path, 'requeue-clears-reason')
+
+
 def prove_changes(src_root, ex: Explorer):
     def update(ctx: Ctx):
         """update_shared_directory: a given share mode and a given user list - including the EMPTY list - replace the old values; None leaves
@@ -795,11 +816,14 @@ def prove_changes(src_root, ex: Explorer):
             puts.append(a)
             if full:
                 it2.throw(it2.natives['asyncio.QueueFull'] if 'asyncio.QueueFull' in it2.natives else cls_builtin(it2, 'QueueFull'), 'full')
-        q = Stub('queue', put_nowait=Recorder('put_nowait', fn=put_nowait))
+        q = Stub('queue', put_nowait=Recorder('put_nowait', fn=put_nowait), full=Recorder('full', ret=full), empty=Recorder('empty', ret=not full),
+                 qsize=Recorder('qsize', ret=1 if full else 0))
         mgr = new(it, TM, 'TransferManager', _management_flags=pending, _management_queue=q)
         it.call(it.getattr(mgr, 'request_management_cycle'), [shares], {})
         after = mgr.attrs['_management_flags']
-        ctx.prove('C08.cycle.request-adds-flag', unbox_flag(after) == (unbox_flag(pending) | shares.value) and len(puts) == 1,
+        # the flag is recorded ALSO when a wake-up is already waiting in the queue (the pending cycle then evaluates it); a wake-up token is
+        # in the queue afterwards either way
+        ctx.prove('C08.cycle.request-adds-flag', unbox_flag(after) == (unbox_flag(pending) | shares.value) and (len(puts) == 1 or full),
                   'a request must be added to the pending ones (and a wake-up token be offered to the queue)')
     ex.run(request, 'request-cycle')
 
@@ -879,7 +903,7 @@ def prove_owner(src_root, ex: Explorer):
 
 
 PARTS = {'owner': prove_owner, 'locked': prove_locked, 'query': prove_query, 'replies': prove_replies, 'search': prove_search_gate, 'uploads': prove_upload_gate,
-         'evaluate': prove_evaluate, 'changes': prove_changes}
+         'evaluate': prove_evaluate, 'changes': prove_changes, 'requeue': prove_requeue_clears_reason}
 
 
 def items(src_root, tier):
